@@ -9,7 +9,7 @@ rsync -a --exclude .git /repo/ $D/repo/
 if [ "$1" = "-e" ]; then sed -i "$2" $D/repo/$3; (cd /repo && diff -u $3 $D/repo/$3 | head -30); shift 3; else (cd $D/repo && patch -p1 -s < $1) || exit 2; shift; fi
 (cd $D/repo && go1.26.8 build ./... ) || { echo "mutant does not compile"; exit 2; }
 PROP=$1; shift
-VERIF_REPO=$D/repo VERIF_OUTDIR=$D/out /verif/check $PROP "$@"
+VERIF_REPO=$D/repo VERIF_OUTDIR=$D/out ${CHECK:-/verif/check} $PROP "$@"
 rc=$?
 for f in $D/out/replays/$PROP/*.json; do [ -f "$f" ] && python3 - "$f" <<'P'
 import json,sys
